@@ -68,8 +68,10 @@ func TimeFromNanos(n *big.Int) time.Time {
 // TextOpts controls how a Go value is printed.
 type TextOpts struct {
 	// Perm, if set, decides the order in which map entries are printed (request lines: Go's map
-	// iteration order must not leak into the op stream); nil: entries sorted by their text.
-	Perm func(n int) []int
+	// iteration order must not leak into the op stream); nil: entries sorted by their text.  It gets
+	// the sorted entries so that the permutation can be a function of the content only (nested maps
+	// are visited in Go's random iteration order, a shared random stream would leak that order).
+	Perm func(sortedItems []string) []int
 	// Norm prints the canonical normal form used by the property oracle: entries of collections the
 	// settings tell the encoder to sort are sorted by their text and timestamps are saturated into
 	// [0, MaxInt64] nanoseconds.
@@ -131,7 +133,7 @@ func ValText(s *Schema, v reflect.Value, o TextOpts) string {
 		}
 		sort.Strings(items)
 		if o.Perm != nil && !o.Norm {
-			p := o.Perm(len(items))
+			p := o.Perm(items)
 			out := make([]string, len(items))
 			for i, j := range p {
 				out[i] = items[j]
